@@ -155,6 +155,16 @@ def palette():
         pt = PType(f"T_{tag}", "Integer", ctx_flags(tag, ctx))
         return Built([ref, pt], [(f"CALREF_{tag}", ref.name), (f"F_{tag}", pt.name)], 10)
     K.append(Kind("u8+ctx(two-parameter conditions, mixed selectors)", build_flags))
+
+    def build_sometimes(tag, ctx):
+        # G is calibrated (a float) only in the first packets of a stream and a plain int afterwards; F's contexts compare against G's value,
+        # so the same Comparison objects meet a float first and ints later (and the other way round in other streams)
+        g = PType(f"G_T_{tag}", "Integer", IntEnc(8, ctx_cals=(CtxCal((Cmp("SRC_SEQ_CTR", "<", "3"),), Poly(((0.5, 1),))),)))
+        f = PType(f"T_{tag}", "Integer", IntEnc(8, ctx_cals=(CtxCal((Cmp(f"G_{tag}", "==", "4"),), Poly(((1000.0, 0), (1.0, 1)))),
+                                                            CtxCal((Cmp(f"G_{tag}", ">", "100"),), Poly(((2000.0, 0), (1.0, 1)))),
+                                                            CtxCal((Cmp(f"G_{tag}", "<=", "0"),), Poly(((3000.0, 0), (1.0, 1)))))))
+        return Built([g, f], [(f"G_{tag}", g.name), (f"F_{tag}", f.name)], 16)
+    K.append(Kind("u8+ctx(on a parameter that is only sometimes calibrated)", build_sometimes))
     # enumerated
     K += [_simple("enum-u2", "Enumerated", I(2), 2, core=True, enum=((0, "OFF"), (1, "ON"), (2, "STANDBY"), (3, "FAULT"))),
           _simple("enum-s4", "Enumerated", I(4, "signed"), 4, enum=((-8, "MIN"), (-1, "NEG"), (0, "ZERO"), (7, "MAX"), (5, "FIVE"), (-6, "A"), (-3, "B"))),
@@ -199,5 +209,9 @@ def palette():
           _simple("reltime-u16(scale only)", "RelativeTime", I(16), 16, scale=0.125),
           _simple("abstime-u16(offsetFrom)", "AbsoluteTime", I(16), 16, unit="s", offset_from="SRC_SEQ_CTR"),
           _simple("reltime-u32(long scale and offset)", "RelativeTime", I(32), 32, scale=1.0000000000000002e-03, offset=-946727935.816),
-          _simple("abstime-u16(no scale, linear calibrator on the encoding)", "AbsoluteTime", I(16, default_cal=Poly(((1.5, 0), (0.5, 1)))), 16, unit="s")]
+          _simple("abstime-u16(no scale, linear calibrator on the encoding)", "AbsoluteTime", I(16, default_cal=Poly(((1.5, 0), (0.5, 1)))), 16, unit="s"),
+          # polynomials on a time encoding that the scale/offset attributes of <Encoding> cannot express
+          _simple("abstime-u16(constant polynomial on the encoding)", "AbsoluteTime", I(16, default_cal=Poly(((315964800.0, 0),))), 16, unit="s", epoch="1970-01-01T00:00:00"),
+          _simple("reltime-u16(quadratic polynomial on the encoding)", "RelativeTime", I(16, default_cal=Poly(((10.0, 0), (0.5, 2)))), 16),
+          _simple("abstime-u8(first and second order, no constant)", "AbsoluteTime", I(8, default_cal=Poly(((2.0, 1), (0.25, 2)))), 8, unit="s")]
     return K
